@@ -12,3 +12,5 @@ import MCHap.Properties.C02
 #print axioms MCHap.C02.callW_sort
 #print axioms MCHap.C02.mhProbs_entry
 #print axioms MCHap.C02.mh_db
+#print axioms MCHap.C02.call_compound_step_invariant
+#print axioms MCHap.C02.call_sampler_invariant
